@@ -1147,6 +1147,37 @@ fn execute_inner(scn: &WireScenario, mask: Mask, res: &mut WireResult) -> Check 
                 }
                 probe("checks.encode_edit_encode");
             }
+            // the callback form of encoding, also after a consumer that failed:
+            // a callback that unwinds (and is caught) must not leave anything
+            // behind that the next encoding can see
+            let via_callback = reg.using_encoded(|b| b.to_vec());
+            if via_callback != a {
+                fail(mask, "C07", "using_encoded_differs_from_encode", || {
+                    format!("frame {}: using_encoded hands out {} bytes, encode() {}", k, via_callback.len(), a.len())
+                })?;
+            }
+            struct ConsumerFailed;
+            let failed = std::panic::catch_unwind(std::panic::AssertUnwindSafe(|| {
+                reg.using_encoded(|_| std::panic::resume_unwind(Box::new(ConsumerFailed)))
+            }));
+            if let Err(payload) = failed {
+                if !payload.is::<ConsumerFailed>() {
+                    std::panic::resume_unwind(payload);
+                }
+                probe("fault.unwind_in_encode_consumer.fired");
+            }
+            let next = libs[(k + 1) % libs.len()].using_encoded(|b| b.to_vec());
+            let want = libs[(k + 1) % libs.len()].encode();
+            if next != want {
+                fail(mask, "C07", "encoding_after_failed_consumer", || {
+                    format!(
+                        "frame {}: after a consumer callback unwound, the next using_encoded hands out {} bytes where encode() gives {}",
+                        k,
+                        next.len(),
+                        want.len()
+                    )
+                })?;
+            }
             // the depth-limited decoding API of the codec on the same impl
             // (real nesting of a registry is about ten levels)
             let mut input = &a[..];
@@ -1431,6 +1462,36 @@ fn execute_inner(scn: &WireScenario, mask: Mask, res: &mut WireResult) -> Check 
                 if effective && outcome.contains('k') {
                     for f in faults {
                         probe(kind_probe(f.kind(), "survived"));
+                    }
+                }
+                // the same bytes through the codec's depth-limited API (its error
+                // paths do their own bookkeeping): no panic, and the same verdict
+                if matches!(reader, ReaderSpec::Slice) {
+                    let mut input = &medium[..];
+                    let (r, usage) = alloc::measure(|| {
+                        core::catch(|| PortableRegistry::decode_with_depth_limit(48, &mut input).map(|r| r.encode()))
+                    });
+                    check_alloc(mask, &format!("case {} depth-limited decode", ci), &usage, medium.len())?;
+                    match r {
+                        Err(m) => {
+                            fail(mask, "C14", &format!("depth_limited.{}", core::panic_clause(&m)), || {
+                                format!("case {}: decode_with_depth_limit panicked: {}", ci, m)
+                            })?;
+                        }
+                        Ok(Ok(bytes)) => {
+                            let consumed = medium.len() - input.len();
+                            if bytes[..] != medium[..consumed] {
+                                fail(mask, "C14", "depth_limited.canonical_re_encode", || {
+                                    format!("case {}: decode_with_depth_limit accepted {} bytes that re-encode differently", ci, consumed)
+                                })?;
+                            }
+                            if !outcome.starts_with('k') {
+                                fail(mask, "C14", "depth_limited.accepts_what_decode_rejects", || {
+                                    format!("case {}: decode_with_depth_limit(48) accepted input that decode() rejects", ci)
+                                })?;
+                            }
+                        }
+                        Ok(Err(_)) => {}
                     }
                 }
                 core::log_bytes(outcome.as_bytes());
